@@ -35,12 +35,12 @@ def gVer (f : Flow) : Bool := f.req.ver == v11 || f.req.ver == v3
 /-- F-C41b: CONNECT flows are exported as https://authority/ and re-imported with an empty authority -/
 def gMethod (lib : Lib) (f : Flow) : Bool := methodOf lib f.method != L "CONNECT"
 /-- F-C41c: the exported URL is re-parsed … -/
-def gUrlParse (lib : Lib) (f : Flow) : Bool := (lib.urlHostport f.purl).isSome
+def gUrlParse (lib : Lib) (f : Flow) : Bool := (lib.urlHostport (exportUrl lib f)).isSome
 /-- … and must print back as itself -/
-def gUrl (lib : Lib) (f : Flow) : Bool := lib.urlPretty f.purl (hget lib f.req.hdrs kHost) == f.purl
+def gUrl (lib : Lib) (f : Flow) : Bool := lib.urlPretty (exportUrl lib f) (hget lib f.req.hdrs kHost) == f.purl
 /-- F-C41d: an existing Host header is overwritten with host[:port] of the URL -/
 def gHost (lib : Lib) (f : Flow) : Bool :=
-  match lib.urlHostport f.purl with
+  match lib.urlHostport (exportUrl lib f) with
   | none => true
   | some hp =>
     if hcontains f.req.hdrs kHost then
